@@ -253,10 +253,19 @@ func genC09(t *rapid.T) c09Case {
 	if rapid.IntRange(0, 2).Draw(t, "chtask") == 0 {
 		ops := []vOp{{K: "mkchan", Keys: []uint32{101, 102}}, {K: "open", W: wid, Start: 2 * vSlot, Chans: []uint32{101, 102}, Persist: -1, Sync: true},
 			{K: "write", W: wid, TS: stamps(2*vSlot, "cw")}, {K: "close", W: wid}}
-		if rapid.Bool().Draw(t, "rmchan") {
+		rm := rapid.Bool().Draw(t, "rmchan")
+		if rm {
 			ops = append(ops, vOp{K: "rmchan", Keys: []uint32{102, 101}})
 		}
 		c.Tasks = append(c.Tasks, c09Task{Name: "channels", Ops: ops})
+		// (not together with a delete: a rival that creates the channels again after
+		// they were deleted starts them empty, which the per-channel history does not
+		// model)
+		if !rm && rapid.Bool().Draw(t, "rival") {
+			// a second client creates the same two channels at the same time: one of the
+			// two requests wins, the other is told the channels exist
+			c.Tasks = append(c.Tasks, c09Task{Name: "channels-rival", Ops: []vOp{{K: "mkchan", Keys: []uint32{101, 102}}}})
+		}
 	}
 	c.Sched = genSched(t)
 	c.Seed = rapid.Uint64().Draw(t, "seed")
@@ -274,7 +283,10 @@ type c09State struct {
 	probes  map[string]int
 	created map[uint32]bool
 	removed map[uint32]bool
-	taint   string
+	// mkWon / mkLost: create requests for channels 101+102 that succeeded / were told
+	// the channels already exist
+	mkWon, mkLost int
+	taint         string
 	// concurrentReads are reads issued by tasks (not judged; see c09Exec)
 	concurrentReads []porcupine.Operation
 }
@@ -508,11 +520,27 @@ func c09Exec(r *vRun, s *c09State, client int, writers map[int]*c09Writer, chans
 		if err := r.db.CreateChannel(r.ctx,
 			Channel{Key: idx, Name: "x" + strconv.Itoa(int(idx)), DataType: telem.TimeStampT, IsIndex: true},
 			Channel{Key: data, Name: "x" + strconv.Itoa(int(data)), DataType: telem.Int64T, Index: idx}); err != nil {
+			if strings.Contains(err.Error(), "already exists") {
+				// lost to a rival create (or the channel was created and not yet removed)
+				s.mu.Lock()
+				s.mkLost++
+				s.mu.Unlock()
+				return nil
+			}
 			return drv.Failf("unexpected-error", "mkchan:"+errSig(err), "client %d create channels: %v", client, err)
 		}
 		s.mu.Lock()
 		s.created[idx], s.created[data] = true, true
+		s.mkWon++
+		won := s.mkWon
+		removed := s.removed[idx]
+		// created again after a delete: the channels exist
+		delete(s.removed, idx)
+		delete(s.removed, data)
 		s.mu.Unlock()
+		if won > 1 && !removed {
+			return drv.Failf("channel-created-twice", "concurrent-creates", "client %d: a second create of channels %d and %d succeeded while they existed", client, idx, data)
+		}
 	case "rmchan":
 		if err := r.db.DeleteChannels(op.Keys); err != nil {
 			// refused while a GC pass or reader still uses the channel: a reported failure
